@@ -97,7 +97,7 @@ POOLS2 = {
  'Kk': ([b'k0', b'k1', b'k2'], []), 'Kl': ([b'l0', b'l1'], []), 'Kh': ([b'h0', b'h1'], []),
  'Kt': ([b't0', b't1', b't2'], []), 'Kz': ([b'z0', b'z1'], []),
  'V': ([b'a', b'b', b'10', b'-1', b'3.5', b'abc', b'hello world', b'0', b'7'],
-       [b'', b'\x00\xff', _I(I64MAX), b'1e3', b' 1', b'007', _I(-I64MAX - 1), b'\r\n', b'x' * 40, b'1_0']),
+       [b'', b'\x00\xff', _I(I64MAX), b'1e3', b' 1', b'007', _I(-I64MAX - 1), b'\r\n', b'x' * 40, b'1_0', b'inf', b'-inf', b'nan', b'1e308', b'-1e308']),
  'F': ([b'f0', b'f1', b'f2'], [b'']),
  'M': ([b'a', b'b', b'c', b'd', b'm1', b'10', b'2'], [b'', b'\xff', b'aa', b'B']),
  'I': ([b'0', b'1', b'-1', b'2', b'-2', b'5', b'10', b'-10', b'100'],
@@ -121,7 +121,7 @@ POOLS2 = {
        [b'[', b'(', b'a', b'[\xff', b'(\xff', b'[aa', b'']),
  'P': ([b'*', b'k*', b'?0', b'[kl]*', b'h[0-9]', b'[^k]*', b'*0', b'k0', b'ch*', b'c?1', b'[a-c]', b'*[0-1]', b'?*', b'a*'],
        [b'\\k0', b'k[', b'a*b*', b'[a-', b'[]', b'[^]', b'k\\', b'**', b'[z-a]*', b'', b'\\*', b't[\\0-1]']),
- 'H': ([b'ch1', b'ch2', b'c01', b'a'], [b'']),
+ 'H': ([b'ch1', b'ch2', b'c01', b'a'], [b'', b'h[0-9]', b'[a-', b'k\\', b'c?1', b'a*', b'\\k0', b'[^k]*']),
  'B': ([b'0', b'1', b'2', b'15', b'0', b'1'], [b'16', b'-1', b'a']),
  'O': ([b'0', b'1', b'7', b'8', b'9', b'15', b'16', b'100'], [b'4294967295', b'4294967296', b'-1', b'x']),
  'Os': ([b'0', b'1', b'7', b'8', b'9', b'15', b'16', b'100', b'130', b'3'], [b'-1', b'x']),
@@ -146,7 +146,7 @@ def pick(rng, name):
 SEED_COMMANDS = [
  [b'set', b'k0', b'10'], [b'set', b'k1', b'abc'], [b'rpush', b'l0', b'a', b'b', b'c', b'b'], [b'rpush', b'l1', b'2', b'10', b'm1'],
  [b'hset', b'h0', b'f0', b'1', b'f1', b'abc'], [b'sadd', b't0', b'a', b'b', b'c'], [b'sadd', b't1', b'b', b'c', b'd', b'10', b'2'],
- [b'zadd', b'z0', b'1', b'a', b'2', b'b', b'2', b'c', b'3.5', b'd'], [b'zadd', b'z1', b'0', b'a', b'0', b'b', b'0', b'c', b'0', b'm1'],
+ [b'zadd', b'z0', b'1', b'a', b'2', b'b', b'2', b'c', b'3.5', b'd', b'inf', b'pinf', b'-inf', b'ninf'], [b'zadd', b'z1', b'0', b'a', b'0', b'b', b'0', b'c', b'0', b'm1'],
  [b'set', b'w_a', b'3'], [b'set', b'w_b', b'1'], [b'hset', b'w_10', b'f0', b'5'], [b'set', b'w_2', b'x'],
 ]
 
